@@ -17,6 +17,7 @@ def check(run):
         run.rule(r, N.RULES[r])
     for cfg in configs(run):
         F = run.facts(cfg)
+        if cfg == 'base': __import__('common').pins(run, F, 'number_prims', 'agg_plain')
         # helpers this property stands on (rule sets owned by other properties, see common.deps)
         from common import deps as _deps
         _deps(run, F, 'isnone', 'casts')
